@@ -218,6 +218,36 @@ Example c04_if_calls_example :     (* Template:i = "[{{{1}}}]": {{#if: x | a{{i|
   codes (if_calls_result lib [Ch 120] more) = [97; 91; 112; 93] /\ codes (if_calls_result lib [Ch 32] more) = [91; 113; 93].
 Proof. vm_compute. repeat split. Qed.
 
+(* ... the same for #ifeq (plain operands, branches of text and flat calls) and for #switch (plain subject and keys,
+   values of text and flat calls): only the chosen branch or case value is expanded into the result *)
+Theorem c04_ifeq_with_calls_in_its_branches :
+  forall pfnames lib opts x more,
+    ifeq_calls_ok pfnames lib x more = true -> o_parserfns opts = true -> o_tfn opts = [] -> o_pfn opts = [] ->
+    exists F, forall stk ea fuel, (length stk < 98)%nat -> forallb (fresh_items stk) more = true -> (F <= fuel)%nat ->
+      expand_T pfnames lib opts fuel stk ea ((ifeq_head ++ x)%list :: more) = Some (ifeq_calls_result lib x more).
+Proof. exact ifeq_calls. Qed.
+Print Assumptions c04_ifeq_with_calls_in_its_branches.
+
+Theorem c04_switch_with_calls_in_its_values :
+  forall pfnames lib opts x cases,
+    plain x = true -> forallb (case_calls_ok pfnames lib) cases = true ->
+    o_parserfns opts = true -> o_tfn opts = [] -> o_pfn opts = [] ->
+    exists F, forall stk ea fuel, (length stk < 98)%nat -> forallb (fun kv => fresh_items stk (snd kv)) cases = true ->
+      (F <= fuel)%nat ->
+      expand_T pfnames lib opts fuel stk ea ((switch_head ++ x)%list :: map mkcase cases)
+      = Some (add_newline (switch_calls_result lib (strip_i x) cases None)).
+Proof. exact switch_calls. Qed.
+Print Assumptions c04_switch_with_calls_in_its_values.
+
+Example c04_switch_calls_example :   (* Template:i = "[{{{1}}}]": {{#switch: b | a = {{i|p}} | b = x{{i|q}} }} gives "x[q]" *)
+  let lib := [mktpl [73] [Ch 91; A [[Ch 49]]; Ch 93] false] in
+  let cases := [([Ch 97], [T [[Ch 105]; [Ch 112]]]); ([Ch 98], [Ch 120; T [[Ch 105]; [Ch 113]]])] in
+  forallb (case_calls_ok [] lib) cases = true /\
+  codes (switch_calls_result lib [Ch 98] cases None) = [120; 91; 113; 93] /\
+  ifeq_calls_ok [] lib [Ch 49] [[Ch 48; Ch 49]; [T [[Ch 105]; [Ch 112]]]] = true /\
+  codes (ifeq_calls_result lib [Ch 49] [[Ch 48; Ch 49]; [T [[Ch 105]; [Ch 112]]]]) = [91; 112; 93].
+Proof. vm_compute. repeat split. Qed.
+
 (* #switch with plain keyed cases: the value of the first case whose key equals the first argument (as numbers when both
    are numbers, else as text; both trimmed), else the value of the last "#default = v" case, else empty *)
 Theorem c04_switch_with_plain_keyed_cases :
